@@ -28,8 +28,10 @@ Definition init_complete (cs : list cell) (clears : list string) : bool :=
 Definition entries_init (es : list (string * bool)) : bool :=
   forallb (fun e => snd e) es && (5 <=? N.of_nat (List.length es))%N.
 
-(* nom-recursive keeps its flags in a u128 *)
-Definition recursive_fits (n : N) : bool := (n <? 128)%N.
+(* nom-recursive hands every #[recursive_parser] function met on a thread a bit of its flag word and
+   never takes one back; the word has [cap] bits (64, or 128 / 256 with the cargo features tracer128 /
+   tracer256 of the dependency): when all functions of the grammar fit, no history of calls can exhaust it *)
+Definition recursive_fits (n cap : N) : bool := (n <=? cap)%N.
 
 (* ------------------------------------------------------------------ C19: the frame rule *)
 Section Threads.
